@@ -12,7 +12,7 @@ from vlib.harness import V, derive_seed, run_shards
 from vlib.lib import call as safe_call
 
 PROPERTY = 'C08'
-AMBIENT_PASS = True        # the same search once more under unusual ambient settings (vlib.run.AMBIENT_SETTINGS)
+AMBIENT_PASS = 'quick'       # the same search once more under unusual ambient settings (vlib.run.AMBIENT_SETTINGS)
 RULE = ('competition prefixes: every k-th distinct state of a breadth-first enumeration of all call sequences (n=2 depth 8/9, '
         'n=3 depth 6/7) and the end and two drawn mid-points of card-driven plays of complete competitions (1-4 athletes, up '
         'to 4 regular + 3 jump-off heights, refused calls interspersed); for each prefix: (1) from_actions replay of the '
